@@ -70,16 +70,19 @@ func c09Run(tb vt.TB, c c09Case) (taken []int, nontrivial bool, outcome string) 
 		}
 	}
 	pre := w.History()
-	// a schedule element names the operation to run next; when that one is not waiting (finished), it is taken modulo
-	// the number of waiting ones - so the schedule actually taken (a list of operation numbers) replays exactly
-	pick := func(step int, waiting []int) int {
-		if step < len(c.Schedule) {
-			for k, id := range waiting {
-				if id == c.Schedule[step] {
+	// a schedule element names the operation to run next; elements naming an operation that has finished are skipped, and
+	// when the schedule is used up the first waiting operation runs - so the schedule actually taken (a list of operation
+	// numbers) replays exactly
+	cursor := 0
+	pick := func(_ int, waiting []int) int {
+		for cursor < len(c.Schedule) {
+			id := c.Schedule[cursor]
+			cursor++
+			for k, wid := range waiting {
+				if wid == id {
 					return k
 				}
 			}
-			return c.Schedule[step] % len(waiting)
 		}
 		return 0
 	}
@@ -283,6 +286,22 @@ func c09Run(tb vt.TB, c c09Case) (taken []int, nontrivial bool, outcome string) 
 	return taken, nontrivial, outcome
 }
 
+// c09Preempt3 is the schedule "X runs i calls, Y runs to completion, Z runs j calls, X finishes, Z finishes".
+func c09Preempt3(perm []int, i, j int) []int {
+	var s []int
+	rep := func(id, n int) {
+		for k := 0; k < n; k++ {
+			s = append(s, id)
+		}
+	}
+	rep(perm[0], i)
+	rep(perm[1], 60)
+	rep(perm[2], j)
+	rep(perm[0], 60)
+	rep(perm[2], 60)
+	return s
+}
+
 // c09StatusOf finds the status of the revision stored under a storage key (sh.helm.release.v1.<name>.v<rev>).
 func c09StatusOf(h []world.Rev, key string) string {
 	for _, r := range h {
@@ -296,7 +315,7 @@ func c09StatusOf(h []world.Rev, key string) string {
 func c09GenCase(t *rapid.T) c09Case {
 	c := c09Case{Backend: rapid.SampledFrom([]string{"memory", "secret", "configmap"}).Draw(t, "backend"), Start: rapid.SampledFrom([]string{"empty", "empty", "deployed", "deployed", "deployed-long", "uninstalled-kept"}).Draw(t, "start")}
 	n := 2
-	if rapid.IntRange(0, 3).Draw(t, "threeOps") == 0 {
+	if rapid.IntRange(0, 2).Draw(t, "threeOps") == 0 {
 		n = 3
 	}
 	for i := 0; i < n; i++ {
@@ -311,11 +330,29 @@ func c09GenCase(t *rapid.T) c09Case {
 			op.CleanupOnFail = rapid.Bool().Draw(t, "cleanup")
 			if c.Start == "deployed-long" {
 				op.MaxHistory = rapid.SampledFrom([]int{0, 1, 2, 3}).Draw(t, "maxHistory")
+			} else {
+				op.MaxHistory = rapid.SampledFrom([]int{0, 0, 1, 2}).Draw(t, "maxHistory")
 			}
 		}
 		c.Ops = append(c.Ops, op)
 	}
-	c.Schedule = rapid.SliceOfN(rapid.IntRange(0, n-1), 0, 60).Draw(t, "schedule")
+	// the schedule is drawn as segments (operation, number of consecutive calls): single steps give fine interleavings,
+	// long segments let one operation run to completion while another is parked in the middle of its own
+	if n == 3 && rapid.IntRange(0, 2).Draw(t, "boundedPreemption3") == 0 {
+		// X runs i calls, Y runs to completion, Z runs j calls, X finishes, Z finishes (two pre-emptions, three operations)
+		perm := rapid.Permutation([]int{0, 1, 2}).Draw(t, "order")
+		i, j := rapid.IntRange(0, 10).Draw(t, "xPrefix"), rapid.IntRange(0, 10).Draw(t, "zPrefix")
+		c.Schedule = c09Preempt3(perm, i, j)
+	} else if rapid.Bool().Draw(t, "segmentedSchedule") {
+		for i, ns := 0, rapid.IntRange(0, 8).Draw(t, "nSegments"); i < ns; i++ {
+			id := rapid.IntRange(0, n-1).Draw(t, "segmentOp")
+			for k, l := 0, rapid.SampledFrom([]int{1, 1, 2, 3, 5, 8, 13, 30}).Draw(t, "segmentLen"); k < l; k++ {
+				c.Schedule = append(c.Schedule, id)
+			}
+		}
+	} else {
+		c.Schedule = rapid.SliceOfN(rapid.IntRange(0, n-1), 0, 60).Draw(t, "schedule")
+	}
 	return c
 }
 
@@ -326,7 +363,7 @@ func c09Prop(t *rapid.T) {
 }
 
 func TestC09(t *testing.T) {
-	evid.Extra("rule", "C09: two (a quarter of the cases: three) install operations from an empty history, install --replace operations over an uninstalled release with kept history, or upgrade operations from a deployed history of one or three revisions (the latter with history limits 0-3), on one release name, each with its own Configuration, on the memory, Secret and ConfigMap backends; every storage call, cluster request and waiter call of every operation blocks at a gate until a scheduler grants it; the scheduler waits until every unfinished operation is blocked and then lets the operation named by the next element of a rapid-drawn choice list proceed - a deterministic, shrinkable interleaving at exactly the granularity the property names. At quiescence: every storage key was successfully created by exactly one operation; an operation that created no revision failed with an already-exists / in-progress / name-in-use error and sent no mutating cluster request and no successful storage write (except install --replace re-marking the uninstalled last revision superseded, and history pruning of revisions that are neither deployed nor pending at that moment - both things the winner does too); the [first, last storage write] windows of operations that created revisions do not overlap; the final history has unique consecutive new revisions, at most one deployed, nothing pending. Non-trivial = an operation's first storage access lies between another operation's first storage access and its last storage write; distinct by (backend, start, operations, schedule taken).")
+	evid.Extra("rule", "C09: two (a quarter of the cases: three) install operations from an empty history, install --replace operations over an uninstalled release with kept history, or upgrade operations from a deployed history of one or three revisions (with history limits 0-3), on one release name, each with its own Configuration, on the memory, Secret and ConfigMap backends; every storage call, cluster request and waiter call of every operation blocks at a gate until a scheduler grants it; the scheduler waits until every unfinished operation is blocked and then lets the operation named by the next element of a rapid-drawn choice list proceed - a deterministic, shrinkable interleaving at exactly the granularity the property names. At quiescence: every storage key was successfully created by exactly one operation; an operation that created no revision failed with an already-exists / in-progress / name-in-use error and sent no mutating cluster request and no successful storage write (except install --replace re-marking the uninstalled last revision superseded, and history pruning of revisions that are neither deployed nor pending at that moment - both things the winner does too); the [first, last storage write] windows of operations that created revisions do not overlap; the final history has unique consecutive new revisions, at most one deployed, nothing pending. Non-trivial = an operation's first storage access lies between another operation's first storage access and its last storage write; distinct by (backend, start, operations, schedule taken).")
 	evid.Extra("assumptions", []string{"manifests have one resource per kind and hooks are off, so an operation has one call in flight", "crds/ directories are not used (CRD installation legitimately precedes the record creation)", "the fake clientset's create is atomic; API-server optimistic concurrency is not modelled"})
 	rapid.Check(t, c09Prop)
 }
@@ -334,7 +371,7 @@ func TestC09(t *testing.T) {
 // TestC09Exhaustive enumerates ALL schedules with at most two pre-emptions for two operations (A^i B^j A* B*, both
 // starting orders), per backend and start state. Reported as exhaustive for that bounded space only.
 func TestC09Exhaustive(t *testing.T) {
-	evid.Extra("rule", "C09 (bounded-exhaustive part): for two operations, every schedule of the form X^i Y^j X* Y* (at most two pre-emptions, both starting orders, i and j over the whole length of the operations) on each backend and start state (empty: two installs; deployed: two upgrades; uninstalled with kept history: two install --replace, one of them --atomic; three revisions: two upgrades with history limits 2 and 1).")
+	evid.Extra("rule", "C09 (bounded-exhaustive part): for two operations, every schedule of the form X^i Y^j X* Y* (at most two pre-emptions, both starting orders, i and j over the whole length of the operations) on each backend and start state (two operations - empty: two installs; deployed: two upgrades; uninstalled with kept history: two install --replace, one of them --atomic; three revisions: two upgrades with history limits 2 and 1). For three upgrades (deployed history of one or three revisions, history limits 1/1/1 and 2/0/1): every schedule of the form X^i Y* Z^j X* Z* for all six assignments of the operations and i, j in 0..8.")
 	total := 0
 	shard, shards := vt.IntEnv("SHARD_INDEX", 0), vt.IntEnv("SHARD_COUNT", 1)
 	if v := os.Getenv("VERIF_SHARDS"); v != "" {
@@ -388,10 +425,55 @@ func TestC09Exhaustive(t *testing.T) {
 			}
 		}
 	}
+	total += c09Exhaustive3(t, []string{"memory", "secret", "configmap"}, []string{"deployed", "deployed-long"}, [][]int{{1, 1, 1}, {2, 0, 1}}, shard, shards)
 	evid.Extra("bounded_exhaustive_schedules", total)
 }
 
 // ------------------------------------------------------------------ data races (run with the -race binary)
+
+// c09Exhaustive3: three upgrades, two pre-emptions - X runs i calls, Y runs to completion, Z runs j calls, X finishes, Z
+// finishes - for every assignment of the three operations to X, Y, Z and every i, j in 0..8 (all calls before and just
+// after the record is created), with history limits that make pruning run.
+func c09Exhaustive3(t *testing.T, backends, starts []string, limitsList [][]int, shard, shards int) (total int) {
+	perms := [][]int{{0, 1, 2}, {0, 2, 1}, {1, 0, 2}, {1, 2, 0}, {2, 0, 1}, {2, 1, 0}}
+	for bi, backend := range backends {
+		for si, start := range starts {
+			for li, limits := range limitsList {
+				for pi, perm := range perms {
+					if (bi*100+si*50+li*10+pi)%shards != shard {
+						continue
+					}
+					for i := 0; i <= 8; i++ {
+						for j := 0; j <= 8; j++ {
+							ops := []*world.Op{}
+							for k := 0; k < 3; k++ {
+								ops = append(ops, &world.Op{Kind: "upgrade", DisableHooks: true, Chart: c09Chart(k+1, k), MaxHistory: limits[k]})
+							}
+							c := c09Case{Backend: backend, Start: start, Ops: ops, Schedule: c09Preempt3(perm, i, j)}
+							taken, nontrivial, outcome := c09Run(t, c)
+							total++
+							evid.Case([]string{"exhaustive3:" + backend + ":" + start, outcome}, fmt.Sprintf("3|%s|%s|%v|%v", backend, start, limits, taken), nontrivial, map[string]interface{}{"backend": backend, "start": start, "limits": limits, "schedule": taken, "outcome": outcome})
+						}
+					}
+				}
+			}
+		}
+	}
+	return total
+}
+
+// TestC09Preempt3 is the quick-tier slice of the three-operation family: memory backend, one deployed revision, history
+// limit 1 for all three upgrades (486 schedules).
+func TestC09Preempt3(t *testing.T) {
+	evid.Extra("rule", "C09 (bounded-exhaustive, quick slice): three upgrades with history limit 1 from one deployed revision on the memory backend, every schedule X^i Y* Z^j X* Z* (six assignments, i, j in 0..8).")
+	shard, shards := 0, 1
+	if v := os.Getenv("VERIF_SHARDS"); v != "" {
+		fmt.Sscan(v, &shards)
+		fmt.Sscan(os.Getenv("VERIF_SHARD"), &shard)
+	}
+	n := c09Exhaustive3(t, []string{"memory"}, []string{"deployed"}, [][]int{{1, 1, 1}}, shard, shards)
+	evid.Extra("bounded_exhaustive_schedules_quick", n)
+}
 
 func c09Release(name string, rev int, status release.Status) *release.Release {
 	return &release.Release{Name: name, Namespace: "default", Version: rev, Info: &release.Info{Status: status}, Manifest: "m", Config: map[string]interface{}{"k": "v"}}
